@@ -855,6 +855,7 @@ impl Scenario for Chaos {
         cov.probe_declare("word_with_bits_above_10");
         cov.probe_declare("map_keycode_with_impossible_modifier_combination");
         cov.probe_declare("layout_changed_on_event_decoder");
+        cov.probe_declare("debug_and_eq_impls_of_public_types");
     }
     fn generate(&self, rng: &mut Rng, run: u64, tier: Tier) -> Trace {
         let mut cfg = Cfg::default();
@@ -1024,7 +1025,14 @@ impl Scenario for Chaos {
             env.cov.api_calls += 1;
             env.cov.evaluations += 1;
             match top.op {
-                Op::Obj { id } => obj = id as usize % 6,
+                Op::Obj { id } => {
+                    obj = id as usize % 6;
+                    // the derived / hand-written trait impls of the public types are public
+                    // operations too: formatting and comparing must return normally in any state
+                    let text = format!("{:?} {:?} {:?} {:?}", ps2, kb1.get_modifiers(), kb2.get_modifiers().clone() == *kb1.get_modifiers(), pc_keyboard::Modifiers::default());
+                    h.mix(text.len() as u64 & 1);
+                    env.cov.probe("debug_and_eq_impls_of_public_types");
+                }
                 Op::Edge { bit } => {
                     bits_since_clear += 1;
                     if bits_since_clear > 16 {
@@ -1089,12 +1097,13 @@ impl Scenario for Chaos {
                 Op::Ev { key, st } => {
                     let e = KeyEvent::new(ALL_KEYS[key as usize % NKEYS], STATES[st as usize % 3]);
                     env.cov.hit("event_key_x_state", (key as usize % NKEYS) * 3 + st as usize % 3);
+                    let shown = format!("{:?}", e);
                     let r = match obj {
                         4 => kb1.process_keyevent(e),
                         5 => kb2.process_keyevent(e),
                         _ => ed.process_keyevent(e),
                     };
-                    h.mix(dk_hash(&r));
+                    h.mix(dk_hash(&r) ^ (shown.len() as u64 & 1) ^ (format!("{:?}", r).len() as u64 & 1));
                 }
                 Op::SetCtrl { map } => match obj {
                     4 => kb1.set_ctrl_handling(hc(map)),
